@@ -684,6 +684,14 @@ pub fn exhaustive_inits(fam: FamId, secret: &[u8; 32]) -> Vec<Init> {
 }
 
 pub fn exhaustive_keys(fam: FamId) -> Vec<Secret> {
+    if fam == FamId::Big {
+        // a 96-byte and a 66-byte public key
+        let mut a = [0x42u8; 32];
+        a[30] = 3;
+        let mut b = [0x43u8; 32];
+        b[30] = 2;
+        return vec![Secret(a), Secret(b)];
+    }
     let p = pool().of(fam.scheme());
     // a random-looking key and an edge scalar
     vec![Secret(p[p.len() - 1]), Secret(p[3 % p.len()])]
